@@ -398,7 +398,7 @@ func runC10(cfg *vh.Config) error {
 		return replayOne(cfg.Replay)
 	}
 	res := vh.NewResult("C10", cfg.Seed)
-	res.Rule = "forced schedules on the real SchemaCache / Codec / package-level Global codec through the verifhook points: type universes (a quarter of them with one or two types that have a field of an unsupported type and so fail to reflect, as do the types that reach them; chain, shared sub-schema, mutual+self recursion, disjoint, random graphs of 2-7 messages/enums in 1-3 packages, list and map fields; in codec/global mode a third of the universes also have exposed oneofs and oneof wrapper messages — those cases go to the direct oracle only), 2-6 threads of 0-3 calls (Schema / encode / decode / query-decode), schedules uniform / bursts / stall-after-k / all-enter, each drained round-robin; plus the model's two refutation witnesses in every mode; plus real goroutines under the race detector (first use on fresh codecs). non-trivial = distinct (universe, calls, schedule) with at least two threads that make a call"
+	res.Rule = "forced schedules on the real SchemaCache / Codec / package-level Global codec through the verifhook points: type universes (a quarter of them with one or two types that have a field of an unsupported type and so fail to reflect, as do the types that reach them; chain, shared sub-schema, mutual+self recursion, disjoint, random graphs of 2-7 messages/enums in 1-3 packages, list and map fields; a fifth of the universes also have exposed oneofs and more oneof wrapper messages), 2-6 threads of 0-3 calls (Schema / encode / decode / query-decode), schedules uniform / bursts / stall-after-k / all-enter, each drained round-robin; plus the model's two refutation witnesses in every mode; plus real goroutines under the race detector (first use on fresh codecs). non-trivial = distinct (universe, calls, schedule) with at least two threads that make a call"
 	cf := &vh.CasesFile{
 		Header: "From Coq Require Import String List NArith.\nFrom J5V.model Require Import Conc ConcCorr.",
 		Type:   "c10case",
@@ -425,8 +425,9 @@ func runC10(cfg *vh.Config) error {
 			// and must leave nothing behind for the others
 			cdesc.WithBad(r, u)
 			why += "+unsupported"
-		} else if mode != "cache" && r.Chance(35) {
-			// exposed oneofs / oneof wrapper messages: outside the Coq model, direct oracle only
+		} else if r.Chance(30) {
+			// exposed oneofs (registered up front and linked at once, their members processed in
+			// the message's field loop) and more oneof wrapper messages
 			u, why = cdesc.GenRich(r, fmt.Sprintf("%sc%d", tagBase, i))
 		}
 		if len(cdesc.MsgNodes(u)) == 0 {
@@ -529,11 +530,9 @@ func runC10(cfg *vh.Config) error {
 			obs = append(obs, "["+strings.Join(os, ";")+"]")
 		}
 		if cs.U.Rich() {
-			res.Count("oracle only (exposed oneofs / wrapper messages: outside the model)")
-			caseNo++
-			continue
+			res.Count("universe with exposed oneofs")
 		}
-		cf.Terms = append(cf.Terms, fmt.Sprintf("C10Case %d %s %s %s %s [%s]", cs.K, cs.U.CoqGraph(), callsTerm(cs.Calls), intsN(run.Sched), intsN(run.Trace), strings.Join(obs, ";")))
+		cf.Terms = append(cf.Terms, fmt.Sprintf("C10Case %d %s %s %s %s %s [%s]", cs.K, cs.U.CoqGraph(), cs.U.CoqExpo(), callsTerm(cs.Calls), intsN(run.Sched), intsN(run.Trace), strings.Join(obs, ";")))
 		var resStr [][]string
 		for _, th := range run.Res {
 			var ss []string
